@@ -11,7 +11,7 @@ from ..engines.seqsim import World, Violation, ABSENT, Skip
 ID = "C07"
 ENGINE = "seqsim"
 LEVEL = "exploration"
-RUNS = {"quick": 24000, "thorough": 400000}
+RUNS = {"quick": 60000, "thorough": 400000}
 CHUNK = 250
 RULE = ("seeded histories over 1-4 JSON files (one object each) of one buffered family; each file gets a role "
         "{modified, read-only, untouched} x outside change {before first buffered access, after it, never}; context "
